@@ -315,6 +315,12 @@ func genSrvAcct(p *prng, thorough bool, w *bufio.Writer) {
 
 	// 7. a header field that never ends: the octets held at 4*MaxHeaderListSize - 1, exactly there, one more (F68)
 	genHeldFields(g, thorough, true)
+
+	// 8. response header blocks longer than a frame (F33): HEADERS + CONTINUATION, gauges after every frame
+	g.newConn(8, 0, 0)
+	g.settings()
+	g.gaugeEach = true
+	g.bigBlocks(false)
 	g.line("srv %s end", g.id)
 }
 
